@@ -1,6 +1,6 @@
 (* C03 - Allowable expenditure is conserved.  Statements only. *)
-From Coq Require Import QArith Qcanon ZArith List Bool.
-Require Import CGT.Model.Num CGT.Model.Match CGT.Proofs.MatchFacts.
+From Coq Require Import QArith Qcanon ZArith List Bool Sorted.
+Require Import CGT.Model.Num CGT.Model.Match CGT.Proofs.MatchFacts CGT.Proofs.MatchInv CGT.Proofs.MatchCost CGT.Proofs.Examples.
 Import ListNotations.
 Open Scope Qc_scope.
 
@@ -8,4 +8,26 @@ Open Scope Qc_scope.
 Theorem C03_pool_removal_conserves : forall d s rem,
   legs_cost (fst (fst (pool_step d s rem))) + snd (snd (pool_step d s rem)) = m_pc s.
 Proof. exact pool_step_cost. Qed.
+
+(* For every accepted, well-formed, date-sorted security ledger: the allowable cost of all legs of all
+   disposals plus the cost left in the closing pool equals the total cost of all purchases
+   (quantity x price + fees, bcost) plus the cost offsets the pre-pass attached to them
+   (accumulations less capital returns that took effect).  Each pound is used exactly once whichever
+   rule matched the shares: same-day, 30-day (claimed ahead, across splits) or pool. *)
+Theorem C03_cost_conservation : forall w ds offs s, wf_days ds -> sorted_days ds ->
+  prepass false [] ds = inr offs -> run w ds = inr s ->
+  qsum (map (fun x : Z * list leg => qsum (map lg_cost (snd x))) (m_disp s)) + m_pc s
+  = qsum (map (fun d => if hasbuy d then bcost d + offset_of offs (dt d) else 0) ds).
+Proof. exact run_cost_conservation. Qed.
+
+(* one adjustment (capital return / accumulation) is apportioned in full over the lots held *)
+Theorem C03_adjustment_exact : forall ls a, (forall l, In l ls -> 0 <= pl_held l) -> total_held ls <> 0 ->
+  offs_total (apply_adj ls a) = offs_total ls + a.
+Proof. exact apply_adj_total. Qed.
+
+Example C03_witness : wf_days ex1 /\ sorted_days ex1 /\ exists offs s, prepass false [] ex1 = inr offs /\ run 30 ex1 = inr s.
+Proof. split; [exact ex1_wf|]. split; [exact ex1_sorted|]. eexists. eexists. split; vm_compute; reflexivity. Qed.
+
 Print Assumptions C03_pool_removal_conserves.
+Print Assumptions C03_cost_conservation.
+Print Assumptions C03_adjustment_exact.
